@@ -98,6 +98,6 @@ def main():
     json.dump(m, open(os.path.join(V, "MANIFEST.json"), "w"), indent=1)
 
 NA = {}
-HOOK_COMMITS = ["f6278db", "770d949", "e0f0736"]
+HOOK_COMMITS = ["f6278db", "770d949", "e0f0736", "0689ee1"]
 if __name__ == "__main__":
     main()
